@@ -2,6 +2,7 @@ package main
 
 import (
 	"flag"
+	"io"
 	"os"
 	"time"
 	"fmt"
@@ -18,6 +19,23 @@ type reqSpec struct {
 	Method string
 	H      http.Header
 	Note   string
+	// Shape varies what a handler sees of the request BESIDES method and header fields: 0 = no body; 1 = a one-byte body
+	// with Content-Length 1; 2 = a chunked body (ContentLength -1); 3 = another URL path and query, Host and RemoteAddr.
+	// None of it is covered by Vary, and none of it may matter to the middleware.
+	Shape int
+}
+
+func (rs reqSpec) build() *http.Request {
+	r := newReq(rs.Method, rs.H)
+	switch rs.Shape {
+	case 1:
+		r.Body, r.ContentLength = io.NopCloser(strings.NewReader("x")), 1
+	case 2:
+		r.Body, r.ContentLength, r.TransferEncoding = io.NopCloser(strings.NewReader("xyz")), -1, []string{"chunked"}
+	case 3:
+		r.URL.Path, r.URL.RawQuery, r.Host, r.RemoteAddr, r.RequestURI = "/other/path", "q=1&origin=https://evil.example", "other.test:8443", "10.1.2.3:999", "/other/path?q=1"
+	}
+	return r
 }
 
 const (
@@ -101,6 +119,74 @@ func universeRequests(rng *rand.Rand, s Sem, big bool) []reqSpec {
 					}
 				}
 			}
+		}
+	}
+	return out
+}
+
+// crossProbes: for every two listed patterns that share a host (or wildcard base), the origins that COMBINE them - the scheme of
+// one with the port of the other - and, for every pattern, its neighbours in each dimension (other scheme, other port, no
+// port, parent and child host). None of these is allowed unless some pattern really denotes it: TLC decides.
+func crossProbes(rng *rand.Rand, s Sem) []reqSpec {
+	seen := map[string]bool{}
+	var out []reqSpec
+	add := func(scheme, host string, port int) {
+		if port == anyPort {
+			port = 4711
+		}
+		o := serializeOrigin(scheme, host, port)
+		if seen[o] || len(out) >= 80 {
+			return
+		}
+		seen[o] = true
+		out = append(out, reqSpec{Method: "GET", H: http.Header{hOrigin: {o}}},
+			reqSpec{Method: "OPTIONS", H: http.Header{hOrigin: {o}, hACRM: {"GET"}}})
+	}
+	hostOf := func(p cPattern) string {
+		if p.Wild {
+			return "x." + p.Host
+		}
+		return p.Host
+	}
+	for i, p := range s.Pats {
+		for j, q := range s.Pats {
+			if i != j && p.Host == q.Host && p.Wild == q.Wild && (p.Scheme != q.Scheme || p.Port != q.Port) {
+				add(p.Scheme, hostOf(p), q.Port)
+				add(q.Scheme, hostOf(p), p.Port)
+			}
+		}
+		if i < 6 {
+			other := "http"
+			if p.Scheme == "http" {
+				other = "https"
+			}
+			add(other, hostOf(p), p.Port)
+			add(p.Scheme, hostOf(p), 0)
+			add(p.Scheme, hostOf(p), 8443)
+			add(p.Scheme, "sub."+hostOf(p), p.Port)
+			if k := strings.IndexByte(p.Host, '.'); k > 0 && !strings.HasPrefix(p.Host, "[") {
+				add(p.Scheme, p.Host[k+1:], p.Port)
+			}
+		}
+	}
+	return out
+}
+
+// shapeProbes: preflight-shaped and actual requests that differ from one another only in what Vary cannot name (body,
+// Content-Length, transfer coding, URL, Host, remote address).
+func shapeProbes(rng *rand.Rand, s Sem) []reqSpec {
+	a := allowedOrigin(rng, s).String()
+	other := "https://not-allowed.example.org"
+	var out []reqSpec
+	for _, o := range []string{a, other} {
+		for _, acrm := range []string{"GET", "PUT", "NOSUCHMETHOD"} {
+			for shape := 0; shape <= 3; shape++ {
+				out = append(out, reqSpec{Method: "OPTIONS", H: http.Header{hOrigin: {o}, hACRM: {acrm}}, Shape: shape})
+			}
+		}
+		for shape := 0; shape <= 3; shape++ {
+			out = append(out, reqSpec{Method: "POST", H: http.Header{hOrigin: {o}}, Shape: shape},
+				reqSpec{Method: "OPTIONS", H: http.Header{hOrigin: {o}}, Shape: shape})
 		}
 	}
 	return out
@@ -300,7 +386,7 @@ func fixedSems(rng *rand.Rand) []Sem {
 	s.Any, s.MAny, s.HStar, s.HAuth, s.Expose, s.MaxAge = true, true, true, true, []string{"*"}, -1
 	out = append(out, s) // anonymous allow-all, everything wildcarded
 	s = base()
-	s.Pats, s.Cred, s.Meths, s.HNames, s.HAuth, s.Expose, s.MaxAge, s.Status = []cPattern{ex, wild}, true, []string{"PUT", "DELETE"}, []string{"authorization", "x-a", "x-b"}, true, []string{"x-exposed"}, 600, 200
+	s.Pats, s.Cred, s.Meths, s.HNames, s.HAuth, s.Expose, s.MaxAge, s.Status = []cPattern{ex, wild}, true, []string{"PUT", "DELETE"}, []string{"authorization", "x-a", "x-b"}, true, []string{"x-a", "x-exposed"}, 600, 200
 	out = append(out, s) // credentialed, discrete everything
 	s = base()
 	s.Pats, s.Cred, s.MAny, s.HStar = []cPattern{ex}, true, true, true
@@ -317,6 +403,13 @@ func fixedSems(rng *rand.Rand) []Sem {
 	s = base()
 	s.Pats = []cPattern{ex}
 	out = append(out, s) // minimal single origin
+	// one host under two schemes with different port sets, and the same for a wildcard base (parallel per-node tables)
+	s = base()
+	s.Pats = []cPattern{{Scheme: "https", Host: "two.example.com"}, {Scheme: "http", Host: "two.example.com", Port: 8080},
+		{Scheme: "https", Wild: true, Host: "wild.example.com", Port: 8443}, {Scheme: "http", Wild: true, Host: "wild.example.com"},
+		{Scheme: "wss", Host: "two.example.com", Port: anyPort}}
+	s.Meths, s.HNames, s.Expose = []string{"PUT"}, []string{"x-a"}, []string{"x-exposed"}
+	out = append(out, s)
 	// LARGE lists: search helpers (binary search, sorted sets, the radix tree) behave differently beyond a handful of elements
 	s = base()
 	host := "example.org"
@@ -383,6 +476,30 @@ type innerSpec struct {
 // errHang is reported when a re-entrant handler never returns.
 var hung = false
 
+// Handlers wrapped EARLY: Wrap was called while the middleware was still a passthrough (zero value), or under an earlier
+// configuration; all later requests of that middleware go through this one wrapped handler. The per-request spy is reached
+// through an indirection.
+type earlyWrap struct {
+	h     http.Handler
+	inner http.Handler
+}
+
+var earlyWrapped = map[*cors.Middleware]*earlyWrap{}
+
+func wrapEarly(m *cors.Middleware) {
+	ew := &earlyWrap{}
+	ew.h = m.Wrap(http.HandlerFunc(func(w http.ResponseWriter, r *http.Request) { ew.inner.ServeHTTP(w, r) }))
+	earlyWrapped[m] = ew
+}
+
+func handlerFor(m *cors.Middleware, spy http.Handler) http.Handler {
+	if ew := earlyWrapped[m]; ew != nil {
+		ew.inner = spy
+		return ew.h
+	}
+	return m.Wrap(spy)
+}
+
 func emitServe(t *tracer, m *cors.Middleware, dbg bool, rs reqSpec, pre http.Header, inner *innerSpec, extra map[string]any) (panicked bool) {
 	defer func() {
 		if p := recover(); p != nil {
@@ -390,7 +507,7 @@ func emitServe(t *tracer, m *cors.Middleware, dbg bool, rs reqSpec, pre http.Hea
 			panicked = true
 		}
 	}()
-	r := newReq(rs.Method, rs.H)
+	r := rs.build()
 	var s served
 	w := newRec()
 	for k, v := range pre {
@@ -428,7 +545,7 @@ func emitServe(t *tracer, m *cors.Middleware, dbg bool, rs reqSpec, pre http.Hea
 		done := make(chan any, 1)
 		go func() {
 			defer func() { done <- recover() }()
-			m.Wrap(spy).ServeHTTP(w, r)
+			handlerFor(m, spy).ServeHTTP(w, r)
 		}()
 		select {
 		case p := <-done:
@@ -442,7 +559,7 @@ func emitServe(t *tracer, m *cors.Middleware, dbg bool, rs reqSpec, pre http.Hea
 			return false
 		}
 	} else {
-		m.Wrap(spy).ServeHTTP(w, r)
+		handlerFor(m, spy).ServeHTTP(w, r)
 	}
 	s.w = w
 	ol := linesOf(rs.H, hOrigin)
@@ -518,7 +635,7 @@ func freshResponse(cfg *cors.Config, dbg bool, rs reqSpec, pre http.Header, inne
 				w2.Write([]byte(inner.Body))
 			}
 		}
-	})).ServeHTTP(w, newReq(rs.Method, cloneHeader(rs.H)))
+	})).ServeHTTP(w, reqSpec{Method: rs.Method, H: cloneHeader(rs.H), Shape: rs.Shape}.build())
 	return map[string]any{"fresh": absResp(w), "freshfinal": hdrJSON(w.final()), "freshinvoked": invoked}
 }
 
@@ -612,6 +729,11 @@ func cmdServe(args []string) {
 			if live != nil && nth%2 == 0 {
 				m, err = live, live.Reconfigure(cfg)
 				reused++
+			} else if nth%3 == 1 {
+				// Wrap BEFORE the middleware is configured: zero value, Wrap, then Reconfigure
+				m = new(cors.Middleware)
+				wrapEarly(m)
+				err = m.Reconfigure(cfg)
 			} else {
 				m, err = cors.NewMiddleware(*cfg)
 			}
@@ -640,6 +762,8 @@ func cmdServe(args []string) {
 		if *mode == "junk" || *mode == "both" {
 			reqs = append(reqs, junkRequests(rng, s, *nreq)...)
 		}
+		reqs = append(reqs, crossProbes(rng, s)...)
+		reqs = append(reqs, shapeProbes(rng, s)...)
 		reqs = append(reqs, historyProbes(rng, s)...)
 		own := reqs
 		if len(prevReqs) > 0 && !s.Pass {
